@@ -1,11 +1,12 @@
 CONSTANTS RepointRoles <- AllRoles
  MaxEdits = 2
  MaxEditsFile = 1
- InsertFront = FALSE
+ Wide = FALSE
  NewNames <- NamesQuick
  OpKinds <- AllOpKinds
  ProgIds <- AllProgs
  SimMode = FALSE
+ LoopVarByName = FALSE
 INIT Init
 NEXT Next
 INVARIANT InvAll
